@@ -187,6 +187,11 @@ def execute(case: dict):
                 # addresses another layer by design, so the law does not apply
                 stats["skip:rm_prunes_layer"] = stats.get("skip:rm_prunes_layer", 0) + 1
                 continue
+            if dm3.apply(ops[1])[0] != "ok":
+                # e.g. the only layer was pruned and the body has an attribute of that name: `set @name`
+                # then edits the body attribute (documented corner, pinned by a test), not a new layer
+                stats["skip:set_after_rm_unspecified"] = stats.get("skip:set_after_rm_unspecified", 0) + 1
+                continue
             b, eb = _final(doc, ops, mode)
             if eb:
                 stats["skip:op_failed"] = stats.get("skip:op_failed", 0) + 1
@@ -213,7 +218,7 @@ class LawsProperty:
     rule = ("one evaluation = one law instance (L1 idempotence, L2 set-then-rm, L3 rm-then-set, L4 commutation) on a generated canonical document, "
             "each run as two alternative histories in live and restart mode; distinct = distinct (law, mode, document, operations)")
 
-    def __init__(self, quick_runs=5000, thorough_runs=100000):
+    def __init__(self, quick_runs=30000, thorough_runs=400000):
         self.pid = "C19"
         self.runs = {"quick": quick_runs, "thorough": thorough_runs}
 
